@@ -970,8 +970,14 @@ class Interp:
             if not live:
                 break
         if breaks:
-            if st.orelse:
-                raise AnalysisError(f"for/else with break is not modelled ({frame.qual})")
+            if st.orelse and live:
+                # the else-clause runs on the paths that never broke out of the loop
+                if any(c is sp.true for c, _ in breaks):
+                    live = False
+                else:
+                    r_else = self.exec_block(st.orelse, frame, cur_pc)
+                    if r_else is False:
+                        live = False
             state = self.snapshot(frame) if live else None
             for c, sn in reversed(breaks):
                 state = sn if state is None else self.merge_states(c, sn, state)
